@@ -102,11 +102,42 @@ def run(tier):
         if not nreach:
             rep.fail('R06.5', 'emit|never' + tag, 'no path through the Emit cell walks the descriptors', function='parseEmit', file=fnf)
         rep.analysed.update({'iteration_variants': len(iters), 'induction': {str(a): b for a, b in ind.items()}})
+    apparent_mapper_stable(rep)
     return finish(rep, 'proof',
                   'The Emit cell is interpreted with the descriptor loop summarised by one symbolic iteration k (affine closed forms verified inductively). '
                   'Each iteration variant (kind 0/1/other, last/not last, fault paths) is checked for pause origin, ordering, addresses and the ACK condition; '
                   '"exactly n frames in order" follows by induction over k together with the trip-count bound.',
                   'abstract interpretation with inductive loop summary; per-iteration effect/origin checks', exhaustive=True)
+
+
+def apparent_mapper_stable(rep):
+    """R06.7: the ACK goes to the stored apparent (Ethernet) address of the mapper.  That address is the Ethernet source of the
+    mapper's last request; in the complete dispatch matrix only the request cells (Discover, Emit, Query, QueryLargeTlv of the
+    discovery services) may write it, and then from that frame's Ethernet source - a Probe, Hello or foreign frame must not."""
+    from .dispatch import analyse, F_ETH_SRC
+    from .frame_common import record_field
+    fs2, sums, _obs, _stats = analyse(mtu_ok=True)
+    role = record_field(fs2.srec, 'mapper_apparent')[0]
+    rep.rule('R06.7', 'the apparent mapper address the ACK is sent to is written only by the mapper\'s requests (Discover / Emit / Query / QueryLargeTlv of the discovery services), from that frame\'s Ethernet source; no other cell rewrites it', floor=20)
+    REQUESTS = {OP['discover'], OP['emit'], OP['query'], OP['queryLargeTlv']}
+    n = 0
+    for region, lst in sorted(sums.items()):
+        for s in lst:
+            n += 1
+            if role not in s.changed_fields(()):
+                rep.ok('R06.7')
+                continue
+            got = s.field_bytes('mapper_apparent', 6)
+            want = tuple(s.st.canon(b) for b in F_ETH_SRC)
+            request = all(t in (0, 1) for t in s.tos.values()) and set(s.op.values()) <= REQUESTS
+            ok = request and tuple(got) == want
+            rep.check(ok, 'R06.7', 'apparent|%s' % region,
+                      'a frame (ToS %s, opcode %s) rewrites the stored apparent mapper address %s: the ACK of the next Emit goes to an address that is not the one '
+                      'the mapper sent its requests from' % (s.tos, s.op, 'although it is not a request of the mapper (Discover / Emit / Query / QueryLargeTlv)' if not request
+                                                             else 'with something other than its Ethernet source'),
+                      function='parseFrame', file='lltdResponder/lltdBlock.c')
+    if n == 0:
+        raise AnalysisBroken('dispatch matrix empty')
 
 
 def check_iteration(rep, fs, st, trace, k, tag, kind):
